@@ -2,7 +2,7 @@
     bool, option, unit, prod, list, sumbool map to OCaml's; N/positive/nat/Z stay extracted datatypes).
     Separate extraction: one OCaml module per Coq module, so model names never clash. *)
 From Coq Require Import ExtrOcamlBasic NArith List.
-From XV Require Import Conc.Lts Conc.Ev Model.ChaseDefs Model.SeqlockDefs Model.LeftRightDefs Model.VyukovDefs Model.MsqDefs Model.TblDefs Model.HmlDefs.
+From XV Require Import Conc.Lts Conc.Ev Model.ChaseDefs Model.SeqlockDefs Model.LeftRightDefs Model.VyukovDefs Model.MsqDefs Model.TblDefs Model.HmlDefs Model.HmlItDefs Model.EbrDefs Model.HpDefs.
 Extraction Language OCaml.
 Separate Extraction Lts.run N.of_nat N.to_nat
   ChaseDefs.step ChaseDefs.init
@@ -11,4 +11,7 @@ Separate Extraction Lts.run N.of_nat N.to_nat
   VyukovDefs.step VyukovDefs.init
   MsqDefs.step MsqDefs.init
   TblDefs.step TblDefs.init
-  HmlDefs.step HmlDefs.init.
+  HmlDefs.step HmlDefs.init
+  HmlItDefs.xstep HmlItDefs.xinit
+  EbrDefs.step EbrDefs.init
+  HpDefs.step HpDefs.init.
